@@ -87,7 +87,7 @@ pub fn nonce_audit(ctx: &Ctx, what: &str, body: &refspec::Body, expect_pt: &[u8]
 }
 
 fn library_history(ctx: &Ctx, hist: &History) {
-    let n = ctx.tier.pick(400, 20_000);
+    let n = ctx.tier.pick(4800, 120_000);
     let threads = 16usize;
     let mut rng = Rng::fork(ctx.seed, "C07-lib");
     let s = rng.arr32();
@@ -128,6 +128,35 @@ fn library_history(ctx: &Ctx, hist: &History) {
             });
         }
     });
+    // one long single-thread sequence of the cheap draws (state carried between calls shows only here)
+    {
+        let draws = ctx.tier.pick(30_000, 600_000);
+        for i in 0..draws {
+            let origin = format!("single-thread draw {}", i);
+            if i % 2 == 0 {
+                let k = kestrel_crypto::PrivateKey::generate();
+                hist.add(ctx, "generated private key", &origin, &k.as_bytes().try_into().unwrap());
+            } else {
+                let raw = kestrel_crypto::secure_random(32);
+                hist.add(ctx, "secure_random(32)", &origin, &raw.try_into().unwrap());
+            }
+        }
+        // other request sizes interleaved with 32-byte draws must not disturb freshness either
+        let mut seen_odd = std::collections::HashSet::new();
+        for i in 0..2000usize {
+            let l = [1usize, 7, 16, 33, 100, 1000, 4096, 5000][i % 8];
+            let v = kestrel_crypto::secure_random(l);
+            ctx.eval();
+            if v.len() != l {
+                ctx.violation("C07:secure_random-wrong-length", json!({"asked": l, "got": v.len()}));
+            }
+            if l >= 16 && !seen_odd.insert(v[..16].to_vec()) {
+                ctx.violation("C07:repeated-value:secure_random(n)/secure_random(n)", json!({"length": l, "prefix": hex(&v[..16])}));
+            }
+            let k = kestrel_crypto::secure_random(32);
+            hist.add(ctx, "secure_random(32)", "interleaved with other sizes", &k.try_into().unwrap());
+        }
+    }
     ctx.note("library_history", json!({"key_encrypt_calls": n / threads * threads, "threads": threads, "inputs": "identical sender, recipient, plaintext; ephemeral and payload key = None"}));
     // nonce audit at depth: chunk loop with c = 1 crosses counter 2^16
     let key = rng.arr32();
@@ -152,7 +181,7 @@ fn library_history(ctx: &Ctx, hist: &History) {
 }
 
 fn cli_history(ctx: &Ctx, hist: &History) {
-    let n = ctx.tier.pick(30, 400);
+    let n = ctx.tier.pick(30, 800);
     let mut rng = Rng::fork(ctx.seed, "C07-cli");
     let alice = Ident::new("alice", "apw", &mut rng);
     let bob = Ident::new("bob", "bpw", &mut rng);
